@@ -164,6 +164,24 @@ fn check_sequence(t: &mut Tape, cx: &mut Cx) -> Res {
         expect.push(x);
         wire.extend_from_slice(&e);
     }
+    // the property speaks of encode(m1) ++ .. ++ encode(mk): in half of the cases the stream is what the crate's own encoder
+    // appends to one writer (a Length field that is wrong there desynchronises the stream), otherwise the reference encoding
+    if t.chance(50) {
+        let r = guard(|| {
+            let mut w = rl2tp::common::VecWriter::new();
+            for m in &msgs {
+                to_crate_msg(m).write(&mut w);
+            }
+            w.data
+        });
+        match r {
+            Caught::Ok(w) => {
+                wire = w;
+                cx.class("stream produced by the crate's encoder into one writer");
+            }
+            _ => return fail("encoding the messages of a sequence panicked", json!({"messages": msgs.len()})),
+        }
+    }
     let render = || json!({"stream": hex_short(&wire), "messages": msgs.iter().map(|m| format!("{:?}", crate::props::c04::short(m))).collect::<Vec<_>>()});
     cx.stage(STAGE_ARMED);
     let r = guard(|| {
